@@ -385,3 +385,102 @@ def ae_raises(ctx, st, exc):
 
 UNITS.append(Unit("C16", "jsonargparse._link_arguments:DirectedGraph.add_edge", ae_setup, ae_post, ae_raises, refute_hints=tuple(f"(assert (= nodes.len!0 {k}))" for k in range(0, 4)),
                   trusted=["edges_dict is a defaultdict(list): indexing a missing key yields an empty list stored under that key"]))
+
+
+# ------------------------------------------------------------------------------------- apply_instantiation_links
+def ail_setup(ctx):
+    from pyvc.engine import ClassRef
+    mode = ["target", "final-pass-with-order"][ctx.choose(2, "mode")]
+    src_kind = ["whole-object", "attribute"][ctx.choose(2, "source-kind")]
+    attr_state = ["value", "None", "missing"][ctx.choose(3, "attribute-state")] if src_kind == "attribute" else None
+    src_is_subclass = ctx.choose(2, "source-is-subclass-typed") == 1 if src_kind == "attribute" else False
+    has_fn = ctx.choose(2, "compute_fn") == 1
+    matches = ["exact", "below-target", "other"][ctx.choose(3, "target-key")] if mode == "target" else "exact"
+    already = ctx.choose(2, "already-applied") == 1
+    nested = ctx.choose(2, "nested-link") == 1
+    attr_val = z3.Int("source.attr")
+    obj_attrs = {}
+    if attr_state == "value":
+        obj_attrs["size"] = attr_val
+    elif attr_state == "None":
+        obj_attrs["size"] = None
+    source_obj = Rec("SourceInstance", attrs=obj_attrs)
+    source_action = Rec("ActionTypeHint", attrs={"dest": "data"})
+    computed = z3.Int("compute_fn(...)")
+    target_key = {"exact": "model", "below-target": "model.init_args.n", "other": "other.x"}[matches]
+
+    def call_fn(c, s_, a, k):
+        c.event("compute", tuple(a[0]))
+        return computed
+
+    action = Rec("ActionLink", attrs={"target": (target_key, Rec("Action")), "source": [("data" if src_kind == "whole-object" else "data.size", source_action)],
+                                      "compute_fn": Rec("fn") if has_fn else None, "option_strings": ["--x"]}, methods={"call_compute_fn": call_fn})
+    applied = set([action]) if already else set()
+    applied_rec = Rec("set", attrs={"items": applied}, methods={"add": lambda c, s_, a, k: (applied.add(a[0]), c.event("mark-applied", a[0]))[1]})
+    store = {"data": source_obj}
+    stored_back = {}
+    key = "__applied_instantiation_links__"
+    has_key = ctx.choose(2, "applied-set-in-cfg") == 1
+
+    def cfg_setitem(c, s_, a, k):
+        stored_back[a[0]] = a[1]
+
+    cfg = Rec("Namespace", methods={"__contains__": lambda c, s_, a, k: a[0] == key and has_key, "pop": lambda c, s_, a, k: applied_rec,
+                                    "__getitem__": lambda c, s_, a, k: store[a[0]], "__setitem__": cfg_setitem})
+    parser = Rec("ArgumentParser", attrs={"_links_group": Rec("g"), "logger": Rec("Logger", methods={"debug": lambda c, s_, a, k: None})})
+
+    def get_link_actions(c, a, k):
+        skip = k.get("skip")
+        items = skip.attrs["items"] if isinstance(skip, Rec) else skip
+        return [x for x in [action] if x not in items]
+
+    def set_model(c, a, k):
+        return Rec("set", attrs={"items": applied}, methods=applied_rec.methods) if not has_key else applied_rec
+
+    calls = {
+        "get_link_actions": get_link_actions, "set": lambda c, a, k: applied_rec,
+        "ActionLink.reorder": lambda c, a, k: list(a[1]),
+        "is_nested_instantiation_link": lambda c, a, k: nested,
+        "split_key_leaf": lambda c, a, k: a[0].rsplit(".", 1),
+        "ActionTypeHint.is_subclass_typehint": lambda c, a, k: src_is_subclass,
+        "ActionLink.set_target_value": lambda c, a, k: c.event("set-target", a[0], a[1]),
+    }
+    env = {"parser": parser, "cfg": cfg, "target": "model" if mode == "target" else None, "order": ["data", "model"] if mode != "target" else None}
+    return Setup(env=env, calls=calls, data=dict(mode=mode, src_kind=src_kind, attr_state=attr_state, src_is_subclass=src_is_subclass, has_fn=has_fn, matches=matches, already=already, nested=nested,
+                                                 action=action, source_obj=source_obj, attr_val=attr_val, computed=computed, applied=applied, stored_back=stored_back, key=key, applied_rec=applied_rec))
+
+
+def ail_post(ctx, st, result):
+    d = st.data
+    sets = [e for e in ctx.events if e[0] == "set-target"]
+    tag = f"[{d['mode']},{d['src_kind']}{':' + d['attr_state'] if d['attr_state'] else ''}{',subclass-source' if d['src_is_subclass'] else ''}{',fn' if d['has_fn'] else ''},{d['matches']}{',already' if d['already'] else ''}{',nested' if d['nested'] else ''}]"
+    due = (not d["already"]) and (not d["nested"]) and (d["mode"] != "target" or d["matches"] in ("exact", "below-target"))
+    skippable = d["src_kind"] == "attribute" and d["attr_state"] == "missing" and d["src_is_subclass"]
+    if due and d["attr_state"] == "missing" and not d["src_is_subclass"]:
+        ctx.oblige("post", "a-missing-attribute-of-a-non-subclass-source-is-an-error" + tag, False)
+        return
+    if due and not skippable:
+        ctx.oblige("post", "a-due-link-is-applied-exactly-once" + tag, len(sets) == 1 and sets[0][1] is d["action"])
+        if len(sets) == 1:
+            src_val = d["source_obj"] if d["src_kind"] == "whole-object" else (d["attr_val"] if d["attr_state"] == "value" else None)
+            if d["has_fn"]:
+                comp = [e for e in ctx.events if e[0] == "compute"]
+                ctx.oblige("post", "compute_fn-gets-the-source-object/attribute(also when the attribute is None)" + tag, len(comp) == 1 and len(comp[0][1]) == 1 and comp[0][1][0] is src_val)
+                ctx.oblige("post", "the-target-receives-compute_fn(source)" + tag, sets[0][2] is d["computed"])
+            else:
+                ctx.oblige("post", "the-target-receives-the-source-object/attribute(also when the attribute is None)" + tag, sets[0][2] is src_val)
+        ctx.oblige("post", "an-applied-link-is-recorded-as-applied" + tag, d["action"] in d["applied"])
+    else:
+        ctx.oblige("post", "a-link-that-is-not-due(other target, nested, already applied, or attribute absent on a subclass source)-is-not-applied" + tag, not sets)
+    if d["mode"] == "target":
+        ctx.oblige("post", "the-applied-set-is-stored-back-for-the-next-component" + tag, d["stored_back"].get(d["key"]) is not None)
+
+
+def ail_raises(ctx, st, exc):
+    d = st.data
+    ok = exc.cls == "AttributeError" and d["attr_state"] == "missing" and not d["src_is_subclass"]
+    ctx.oblige("raises", f"only-a-missing-attribute-of-a-non-subclass-source-raises(got {exc.cls}@{exc.origin})", ok)
+
+
+UNITS.append(Unit("C16", "jsonargparse._link_arguments:ActionLink.apply_instantiation_links", ail_setup, ail_post, ail_raises, max_paths=20000,
+                  trusted=["set_target_value(action, value, cfg) stores value at the link's target (C15 unit)", "get_link_actions lists the instantiate links not yet applied", "one link with one source per scenario"]))
